@@ -1257,6 +1257,7 @@ func runMgrCase(in input) (*caseOut, error) {
 			ko.Fired, ko.Err, ko.Text = ke.fdb.Fired, kerr != nil, kres+"|"+errClass(kerr)
 			if fc := ke.fdb.FailedCall(); fc != nil {
 				ko.Callee = fc.Callee
+				ko.Below = sitesBelow(fc.Sites)
 			}
 			if firedAt > 0 {
 				ko.Call = firedAt
@@ -1449,6 +1450,7 @@ func runFreshMgrCase(in input) (*caseOut, error) {
 			ko.Fired, ko.Err, ko.Text = ke.fdb.Fired, kerr != nil, kres+"|"+errClass(kerr)
 			if fc := ke.fdb.FailedCall(); fc != nil {
 				ko.Callee = fc.Callee
+				ko.Below = sitesBelow(fc.Sites)
 			}
 			site := p.Name + ":own-write"
 			switch {
